@@ -26,8 +26,12 @@ EXPORTED = ["Alpha", "Order", "HTTPServer", "UserID", "Item", "Gamma", "Node", "
             "Point", "Zeta", "Kind", "Level", "Mode", "Client", "Store", "Repo", "Color", "Wide"]
 UNEXPORTED = ["inner", "userRepo", "cfg", "node9"]
 
-STRACE_SET = ("%file,write,pwrite64,pwritev,pwritev2,writev,close,ftruncate,fchmod,fchown,fallocate,"
-              "copy_file_range,sendfile,fsetxattr,fremovexattr")
+# every system call that can create, remove, rename or modify a file, plus open/close (to follow
+# descriptors and to see Clean reading first lines)
+STRACE_SET = ("open,openat,openat2,creat,write,pwrite64,pwritev,pwritev2,writev,close,rename,renameat,renameat2,"
+              "unlink,unlinkat,mkdir,mkdirat,rmdir,link,linkat,symlink,symlinkat,chmod,fchmod,fchmodat,chown,fchown,"
+              "lchown,fchownat,truncate,ftruncate,utimensat,utime,utimes,futimesat,mknod,mknodat,fallocate,"
+              "copy_file_range,sendfile,setxattr,lsetxattr,fsetxattr,removexattr,lremovexattr,fremovexattr")
 
 
 # ------------------------------------------------------------------ packages
@@ -357,14 +361,27 @@ _re_str = re.compile(r'"(' + HEX + r')"(\.\.\.)?')
 _re_fd = re.compile(r'(AT_FDCWD|\d+)<(' + HEX + r')>')
 
 
+# calls that take plain path names (no directory descriptor): relative names are resolved
+# against the directory shoot was started in
+_re_oldstyle = re.compile(r'^\d+\s+(?:<\.\.\. )?(?:open|creat|rename|unlink|mkdir|rmdir|link|symlink|chmod|chown|lchown|'
+                          r'truncate|utime|utimes|mknod|setxattr|lsetxattr|removexattr|lremovexattr)[ (]')
+
+
 def unhex(s):
     return bytes(int(x, 16) for x in re.findall(r'\\x([0-9a-f]{2})', s))
 
 
-def parse_strace(text):
-    """yield (tid, syscall, argtext, ret, retpath, tail) for completed calls in completion order"""
+def hexed(s):
+    return "".join("\\x%02x" % b for b in s.encode())
+
+
+def parse_strace(text, needle=None):
+    """yield (tid, syscall, argtext, ret, retpath, tail) for completed calls in completion order.
+    needle: hex-encoded path prefix; calls whose text does not contain it are skipped early"""
     pending = {}
     for raw in text.splitlines():
+        if needle is not None and needle not in raw and "resumed>" not in raw and not _re_oldstyle.search(raw):
+            continue
         m = _re_line.match(raw)
         if not m:
             continue
@@ -376,7 +393,11 @@ def parse_strace(text):
             continue
         r = _re_resumed.match(rest)
         if r:
-            rest = pending.pop(tid, r.group(1) + "(") + r.group(2)
+            if tid not in pending:
+                continue
+            rest = pending.pop(tid) + r.group(2)
+            if needle is not None and needle not in rest and not _re_oldstyle.search(raw):
+                continue
         c = _re_call.match(rest)
         if not c:
             continue
@@ -392,7 +413,7 @@ FD_MUTATING = {"ftruncate", "fchmod", "fchown", "fallocate", "pwrite64", "pwrite
                "copy_file_range", "sendfile", "fsetxattr", "fremovexattr"}
 
 
-def project(text, root, pkgdir):
+def project(text, root, pkgdir, cwd=None):
     """project an strace log onto model operations.
     returns (ops, outside): ops = list of tuples
        ('CreateTemp', fd, name) ('Write', fd, bytes) ('Close', fd) ('Rename', a, b) ('Unlink', n)
@@ -415,13 +436,15 @@ def project(text, root, pkgdir):
             return "root", path[len(root) + 1:]
         return None, path
 
+    cwd0 = os.path.realpath(cwd) if cwd else "/"
+
     def resolve(dirfd_path, rel):
         rel = rel.decode("utf8", "replace")
         if os.path.isabs(rel):
             return rel
-        return os.path.join(dirfd_path or "/", rel)
+        return os.path.join(dirfd_path or cwd0, rel)
 
-    for tid, sc, args, ret, retpath, tail in parse_strace(text):
+    for tid, sc, args, ret, retpath, tail in parse_strace(text, hexed(root)):
         if ret is None or ret < 0:
             continue
         fdm = _re_fd.findall(args)
@@ -532,15 +555,26 @@ def project(text, root, pkgdir):
     return ops, outside
 
 
-def run_traced(shoot, cwd, args, tracefile, timeout=60):
-    """run shoot under strace -f; returns dict(rc, out, err, timed_out)"""
+def run_traced(shoot, cwd, args, tracefile, timeout=40):
+    """run shoot under strace -f in its own process group; returns dict(rc, out, err, timed_out).
+    On a timeout the whole group is killed (no stray tracee survives)."""
     cmd = ["strace", "-f", "--seccomp-bpf", "-y", "-xx", "-s", "4000000", "-e", "trace=" + STRACE_SET, "-o", str(tracefile),
            str(shoot)] + list(args)
     env = lib.go_env()
+    p = subprocess.Popen(cmd, cwd=str(cwd), env=env, stdout=subprocess.PIPE, stderr=subprocess.PIPE, text=True,
+                         start_new_session=True)
     try:
-        p = subprocess.run(cmd, cwd=str(cwd), env=env, capture_output=True, text=True, timeout=timeout)
-        return {"rc": p.returncode, "out": p.stdout, "err": p.stderr, "timed_out": False}
+        out, err = p.communicate(timeout=timeout)
+        return {"rc": p.returncode, "out": out, "err": err, "timed_out": False}
     except subprocess.TimeoutExpired:
+        try:
+            os.killpg(p.pid, signal.SIGKILL)
+        except OSError:
+            pass
+        try:
+            p.communicate(timeout=10)
+        except Exception:
+            pass
         return {"rc": 124, "out": "", "err": "timeout", "timed_out": True}
 
 
